@@ -862,20 +862,18 @@ Definition kPort : pystr := of_ascii "port".
 Definition kServer : pystr := of_ascii "server".
 Definition kGlobal : pystr := of_ascii "Global".
 
-Definition is_exception (ep o : pystr) : bool := str_eqb o kLog || (str_eqb ep kServer && str_eqb o kPort).
+Definition is_exception (ep o : pystr) : bool := str_eqb o kLog.   (* Server.port conforms since the layering repair *)
 
 Lemma conforms_table :
   forallb (fun ep => forallb (fun o => conforms ep o || is_exception ep o) (options ep)) ep_names = true.
 Proof. vm_compute. reflexivity. Qed.
 
 Lemma conforms_exceptions ep o :
-  In ep ep_names -> In o (options ep) -> o <> kLog -> ~ (ep = kServer /\ o = kPort) -> conforms ep o = true.
+  In ep ep_names -> In o (options ep) -> o <> kLog -> conforms ep o = true.
 Proof.
-  intros Hep Ho N1 N2. pose proof conforms_table as T. rewrite forallb_forall in T. specialize (T ep Hep).
+  intros Hep Ho N1. pose proof conforms_table as T. rewrite forallb_forall in T. specialize (T ep Hep).
   rewrite forallb_forall in T. specialize (T o Ho). apply orb_true_iff in T as [T|T]; auto.
-  unfold is_exception in T. apply orb_true_iff in T as [T|T].
-  - apply str_eqb_eq in T. contradiction.
-  - apply andb_true_iff in T as [T1 T2]. apply str_eqb_eq in T1, T2. exfalso. apply N2; auto.
+  unfold is_exception in T. apply str_eqb_eq in T. contradiction.
 Qed.
 
 Lemma conforms_ign_all ep : In ep ep_names -> conforms_ign ep = true.
@@ -943,20 +941,20 @@ Proof. vm_compute. split; reflexivity. Qed.
 (* ================= statements as they appear in Props/C19.v ================= *)
 Lemma effective_value_spec_full ep o files flags :
   In ep ep_names -> In o (options ep) -> o <> kIgnore ->
-  o <> kLog -> ~ (ep = kServer /\ o = kPort) ->          (* the two known deviations, see the _refuted theorems *)
+  o <> kLog ->          (* the known deviation (Global section), see the _refuted theorem *)
   wf_filesb files = true ->
   effective ep files flags o = Ok (spec_effective ep files flags o).
 Proof.
-  intros Hep Ho N N1 N2 W. apply effective_value_spec_lemma; auto. apply conforms_exceptions; auto.
+  intros Hep Ho N N1 W. apply effective_value_spec_lemma; auto. apply conforms_exceptions; auto.
 Qed.
 
 Lemma cwd_file_wins_full ep o cwd rest flags :
-  In ep ep_names -> In o (options ep) -> o <> kIgnore -> o <> kLog -> ~ (ep = kServer /\ o = kPort) ->
+  In ep ep_names -> In o (options ep) -> o <> kIgnore -> o <> kLog ->
   wf_filesb (cwd :: rest) = true ->
   (forall S f, In S (spec_sections ep) -> In f rest -> file_get f S o <> None -> file_get cwd S o <> None) ->
   effective ep (cwd :: rest) flags o = effective ep [cwd] flags o.
 Proof.
-  intros Hep Ho N N1 N2 W H. apply cwd_file_wins_lemma; auto. apply conforms_exceptions; auto.
+  intros Hep Ho N N1 W H. apply cwd_file_wins_lemma; auto. apply conforms_exceptions; auto.
 Qed.
 
 Lemma ignore_merge_pathwise_full ep files p :
